@@ -26,4 +26,10 @@ Definition validator_sound : Prop :=
    The first part is established per function, on every run, by executing the extracted validator on the
    FuncIR the real pipeline produces (translation validation); the second part is monitored dynamically.
    Idioms whose justification lies outside this abstraction are listed in notes/C06.md and counted. *)
+(* always-defined attributes: the claim of attrdefined.py for one class is justified by its __init__ *)
+From C06 Require Import AttrDef.
+Definition always_defined_claim_justified (c : cls) : Prop :=
+  forall x0 x, ainitial c x0 -> asteps c x0 x -> ~ aviolates c x.
+Definition attr_validator_sound : Prop := forall c fuel, acheck c fuel = true -> always_defined_claim_justified c.
+
 Definition full_statement_is_established_by_translation_validation : Prop := validator_sound.
